@@ -657,7 +657,10 @@ fn law_split(r: &mut Rec, p: &str) {
     let head: &[Component] = if n == 0 { &[] } else { &c[..n - 1] };
     let tail: &[Component] = if n == 0 { &[] } else { &c[1..] };
     want_component(r, SPLIT_DB, p, "base", &base, last_c, n);
-    want_comps(r, SPLIT_DB, p, "dir", &dir, head, n, n <= 1);
+    // an error is acceptable only where there is nothing to split off: no component at all, or the root alone
+    // (a single relative component has the empty path as its directory)
+    let nothing_to_split = n == 0 || (n == 1 && matches!(c[0], Component::RootDir));
+    want_comps(r, SPLIT_DB, p, "dir", &dir, head, n, nothing_to_split);
     want_component(r, SPLIT_F, p, "first", &first, first_c, n);
     want_comps(r, SPLIT_F, p, "trim_first", &tfirst, tail, n, false);
     want_component(r, SPLIT_L, p, "last", &last, last_c, n);
